@@ -23,6 +23,7 @@ from vf.core import Prop, Outcome, fd
 
 import deep
 import deep.config
+import deep.logging
 from deep.config import ConfigService
 from deep.config.tracepoint_config import TracepointConfigService
 
@@ -35,6 +36,10 @@ ALL_DEEP_ENV = ['DEEP_' + k for k in set(DOC_KEYS + UNKNOWN_KEYS)] + ['DEEP_APP_
 PREFIXES = ['/app', '/app/pkg', '/app/pkg/sub', '/app/vendor', '/opt/lib', '/app/pk', '/usr/lib/python3']
 PATHS = ['/app/pkg/mod.py', '/app/pkg/sub/deep.py', '/app/vendor/lib/x.py', '/opt/lib/y.py', '/app/pkx/z.py',
          '/usr/lib/python3/os.py', '/app/main.py', '/elsewhere/f.py', '/app/pkg', sys.exec_prefix + '/lib/site.py']
+
+
+# a logging configuration that exists (the agent's own default file will do)
+EXISTING_CONF = os.path.join(os.path.dirname(deep.logging.__file__), 'logging.conf')
 
 
 class EnvPatch:
@@ -118,7 +123,7 @@ class C19(Prop):
             fd({'mode': st.just('parity'), 'key': st.just('SERVICE_URL'),
                                    'value': st.sampled_from(['localhost:1234', 'deep.example:443', 'x:1'])}),
             fd({'mode': st.just('parity'), 'key': st.just('LOGGING_CONF'),
-                                   'value': st.sampled_from(['/etc/deep/logging.conf', '/tmp/l.conf'])}),
+                                   'value': st.sampled_from(['/etc/deep/logging.conf', '/tmp/l.conf', EXISTING_CONF])}),
             fd({'mode': st.just('parity'), 'key': st.just('SERVICE_AUTH_PROVIDER'),
                                    'value': st.just('deep.api.auth.BasicAuthProvider'),
                                    'user': st.sampled_from(['bob', 'ü', '']), 'password': st.sampled_from(['pw', 'p:w', ''])}),
@@ -223,6 +228,8 @@ class C19(Prop):
 
         def file_config(fname=None, *a, **k):
             obs['logging_conf'] = fname
+            # (the standard library's default for this is True: every logger the application made before is switched off)
+            obs['logging_keeps_existing_loggers'] = k.get('disable_existing_loggers', True) is False
         d = None
         with EnvPatch(env):
             grpc.insecure_channel, grpc.secure_channel, logging.config.fileConfig = insecure, secure, file_config
@@ -334,6 +341,10 @@ class C19(Prop):
                 out.violate('SERVICE_SECURE does not select the channel kind', {'value': v, 'got': oc['channel'][0]})
         if key == 'LOGGING_CONF' and oc.get('logging_conf') != v:
             out.violate('LOGGING_CONF does not reach logging.config.fileConfig')
+        if key == 'LOGGING_CONF' and (oc.get('logging_keeps_existing_loggers'), oe.get('logging_keeps_existing_loggers')) \
+                != (True, True):
+            # the setting names the file; what else the configuration call does must not depend on it
+            out.violate('LOGGING_CONF changes how the logging configuration is applied (existing loggers are disabled)')
         if key == 'POLL_TIMER' and oc['timer_interval'] != float(v):
             out.violate('POLL_TIMER does not set the timer interval')
         if key in ('IN_APP_INCLUDE', 'IN_APP_EXCLUDE', 'APP_ROOT'):
